@@ -522,6 +522,18 @@ class System:
                 want = ("ok", (1.0 * sc0 + 3.0 * now[1], 2.0 * sc0 + 4.0 * now[1]))
             if got[0] != want[0] or (got[0] == "ok" and not np.allclose(got[1], want[1], rtol=1e-12)):
                 ctx.violation(f"C12|kept-array|edit={info['last_edit'].get(s0, 'none')}|mode=old-plus-new-array-wrong", case, want, got)
+            # the old array divided by a fresh quantity so that its symbol CANCELS: what is left consists of symbols that were
+            # never edited, so the printed unit must mean what its numbers mean (no hidden scale under an untouched name)
+            if d0 == dim_of(Unit("m").dimensions) and all(info["last_edit"].get(x, "none") == "none" for x in ("m", "s")) and not any(ev[1] in ("m", "s") for ev in hist if len(ev) > 1 and ev[0] != "keeparr"):
+                try:
+                    quo = a / unyt.unyt_quantity(1.0, "m/s", registry=w.r)
+                    txt = str(quo.units)
+                    parsed = Unit(txt, registry=w.r)
+                    gq = ("ok", tuple((np.asarray(quo.d, dtype=float) * float(parsed.base_value)).tolist()), txt)
+                except Exception as e:  # noqa: BLE001
+                    gq = ("raise", type(e).__name__)
+                if gq[0] == "ok" and "foo" not in gq[2] and not np.allclose(gq[1], (1.0 * sc0, 2.0 * sc0), rtol=1e-12):
+                    ctx.violation(f"C12|kept-array|edit={info['last_edit'].get(s0, 'none')}|mode=quotient-with-cancelled-symbol-prints-numbers-that-its-unit-does-not-mean", case, (1.0 * sc0, 2.0 * sc0, "s"), gq)
         # a unit system bound to the registry answers from the registry's CURRENT contents, like a system built now
         if w.us is not None:
             def _read(us, dim):
